@@ -5,7 +5,7 @@
 set -u
 ID="$1"; TIER="${2:-quick}"; shift; shift || true
 V="$(cd "$(dirname "$0")" && pwd)"
-export VERIF_DIR="$V"
+export VERIF_DIR="${VERIF_DIR_OVERRIDE:-$V}"
 export GOFLAGS=-mod=mod GOPROXY=off GOSUMDB=off GOTOOLCHAIN=local
 REPO="${VERIF_REPO:-/repo}"
 case "$ID" in
@@ -15,7 +15,7 @@ case "$ID" in
   C22|C23|C24|C29|C30|C31|C32) G=ui; PKG=./internal/consoleui/verifh/cmd/ui;;
   *) echo "unknown property $ID" >&2; exit 3;;
 esac
-mkdir -p "$V/build" "$V/bin" "$V/evidence"
+mkdir -p "$V/build" "$V/bin" "$VERIF_DIR/evidence"
 OV="$V/build/overlay.$$.json"
 VERIF_OVERLAY_OUT="$OV" VERIF_REPO="$REPO" python3 "$V/gen_overlay.py" || exit 3
 BIN="$V/bin/vc-$G.$$"
